@@ -242,6 +242,31 @@ Definition on_write (m : mst) (origin : Z) (o : sop) (acked : bool) (s s' : stor
                if noop && negb (Z.eqb st 0) then fset m 13 id 1 else m
            | _ => m
            end in
+  (* watchdog sweeps (origins 3, 4) are read-then-unconditional-write: a write that lands on a record the
+     owner changed in between is attributed to the sweep (distinct clause codes), and judged for C14 *)
+  let m := if zin origin [3; 4] then
+             set_viol m (map (fun v => match v with
+                                       | (p, i, c, sj) => if Z.eqb p 15 && Z.eqb i (m_idx m) && (c <? 30000)
+                                                          then (p, i, c + 30000, sj) else v
+                                       end) (m_viol m))
+           else m in
+  let m := match o with
+           | OPatchTask id st _ _ =>
+               if Z.eqb origin 3 && Z.eqb st sFailed then
+                 match find_task s id with
+                 | Some r0 => if Z.eqb (t_status r0) sRunning then m else add_viol m 14 3 id
+                 | None => m
+                 end
+               else m
+           | OUpdateIns r | OBatchUpdateIns [r] _ =>
+               if Z.eqb origin 4 && Z.eqb (i_status r) iInit then
+                 match find_ins s (i_id r) with
+                 | Some i0 => if Z.eqb (i_status i0) iScheduled then m else add_viol m 14 2 (i_id r)
+                 | None => m
+                 end
+               else m
+           | _ => m
+           end in
   (* per-task status changes *)
   let m := fold_left (fun acc r =>
      let old := match find_task s (t_id r) with Some r0 => t_status r0 | None => 0 end in
@@ -513,6 +538,11 @@ Definition mstep0 (m : mst) (ev : sx) : mst :=
                                   then add_viol m 12 11 tid else add_viol m 12 1 tid
                               end
                             else m in
+                   (* C14: the context handed to the action expires when the task's timeout elapses
+                      (own timeout, filled with the worker default at instantiation); measured at phase
+                      start in whole seconds, the run being a few milliseconds old *)
+                   let m := if (0 <=? dl) && negb ((t_timeout r - 3 <=? dl) && (dl <=? t_timeout r)) && negb (Z.eqb (t_timeout r) 0)
+                            then add_viol m 14 1 tid else m in
                    (* C02a: the main action starts only after 'running' was acknowledged by the store *)
                    let m := if Z.eqb ph 1 then
                               (if Z.eqb (t_status r) sRunning && Z.eqb (fget m 4 tid) (sRunning * 2 + 1) then m
